@@ -778,6 +778,54 @@ func c11Burst(w *core.WorkerCtx, rng *rand.Rand) {
 	}
 }
 
+// c11NodeWalletIssuer: the wallet that runs a node is an ordinary wallet too. A contract issued by the wallet of node
+// j and proposed at another node must travel like any other vertex, through j and past it.
+func c11NodeWalletIssuer(w *core.WorkerCtx, rng *rand.Rand) {
+	r := w.R
+	for _, t := range []topo{smallTopos[1], smallTopos[3], smallTopos[4]} {
+		net, err := vnet.Build(t.k, t.adj, -1)
+		if err != nil {
+			r.Inconc("cannot build network: " + err.Error())
+			return
+		}
+		seq := 0
+		for origin := 0; origin < t.k; origin++ {
+			for j := 0; j < t.k; j++ {
+				if j == origin {
+					continue
+				}
+				net.ResetExecution()
+				seq++
+				o := net.Nodes[origin]
+				tr := ledger.ForgeTrx(net.Nodes[j].Actor, net.Users[1+seq%3].Addr, fmt.Sprintf("contract of a node wallet %d", seq), []byte("contract body"), spice.Melange{}, time.Now().Add(-time.Minute))
+				v, err := o.Book.CreateLeaf(context.Background(), &tr)
+				if err != nil {
+					r.Note("node wallet issuer: the origin refused the proposal: " + err.Error())
+					continue
+				}
+				o.Pipe.SendVrx(&v)
+				it := c11Item{"vrx", v.Hash, origin, &v, nil}
+				desc := fmt.Sprintf("topology %s origin %d: a contract issued by the wallet of node %d", t.name, origin, j)
+				w.Mark("%s", desc)
+				x := &c11Exec{w: w, net: net, t: t, rng: rng, policy: []string{"fifo", "random"}[seq%2]}
+				if !x.drive() {
+					r.Inconc("execution did not reach quiescence: " + desc)
+					continue
+				}
+				c11Retries(net, -1)
+				net.Settle()
+				c11Judge(w, net, t, []c11Item{it}, desc, -1, nil)
+				r.Eval(1)
+				r.Count("c11_executions", 1)
+				r.Count("c11_node_wallet_issuer_executions", 1)
+				r.Nontriv(fmt.Sprintf("node-wallet-issuer/%s/origin%d/issuer%d/%s", t.name, origin, j, net.OrderString()))
+				c11Heal(net, -1)
+			}
+		}
+		net.Close()
+	}
+}
+
 // c11Witness is the fixed schedule of the known finding: line A-C-D, parent and child created back to back at A,
 // the child reaches relay C first.
 func c11Witness(w *core.WorkerCtx) {
@@ -837,6 +885,9 @@ func c11Worker(w *core.WorkerCtx) {
 	}
 	if w.Batch == 3 {
 		c11Burst(w, core.Rand(w.Seed, "C11burst", w.Batch))
+	}
+	if w.Batch == 4 {
+		c11NodeWalletIssuer(w, core.Rand(w.Seed, "C11nodewallet", w.Batch))
 	}
 	// the 9 small graphs are spread over the batches; larger graphs are sampled
 	for ti, t := range smallTopos {
